@@ -3,6 +3,8 @@ from __future__ import annotations
 
 import ast
 
+from ..paths import paths
+
 from ..model import AnalysisError, AnchorMissing, dotted, last_attr, unparse, walk_no_nested, find_assign, stmt_key
 from ..vmmodel import VMModel, VM, IR
 
@@ -39,7 +41,113 @@ def is_copy_expr(e) -> bool:
     return False
 
 
-def run(model, col, tier):
+_LIST_MUTATORS = {"append", "extend", "insert", "pop", "remove", "clear", "sort", "reverse", "update", "setdefault", "popitem"}
+
+
+def check_arm_aliasing(vm, col, rule, inplace_ok=("STORE_ARRAY", "STORE_MEMBER")):
+    """Per opcode arm: an in-place mutation (x[i] = .., x += .., x.append(..) ...) only ever hits a container the arm
+    built itself. A name is the arm's own container iff every value assigned to it in the arm is freshly built."""
+    key = f"{VM}::ExecutionContext.__Execute"
+
+    def fresh_value(v, fresh_names):
+        if isinstance(v, (ast.List, ast.ListComp, ast.Dict, ast.DictComp, ast.Tuple)):
+            return True
+        if is_copy_expr(v):
+            return True
+        if isinstance(v, ast.BinOp) and isinstance(v.op, (ast.Add, ast.Mult)):
+            return any(fresh_value(x, fresh_names) for x in (v.left, v.right))
+        if isinstance(v, ast.Name):
+            return v.id in fresh_names
+        return False
+
+    def numeric_value(v):
+        if isinstance(v, ast.Constant) and isinstance(v.value, (int, float)) and not isinstance(v.value, bool):
+            return True
+        if isinstance(v, ast.BinOp):
+            return numeric_value(v.left) or numeric_value(v.right)
+        if isinstance(v, ast.Call) and dotted(v.func) in ("len", "int", "float", "abs", "min", "max"):
+            return True
+        return False
+
+    def units(body):
+        """alternative branches of a top-level if/elif chain or match are analysed separately (they re-use names)"""
+        for i, st in enumerate(body):
+            branches = []
+            if isinstance(st, ast.If) and st.orelse:
+                cur = st
+                while True:
+                    branches.append(cur.body)
+                    if len(cur.orelse) == 1 and isinstance(cur.orelse[0], ast.If):
+                        cur = cur.orelse[0]
+                    else:
+                        if cur.orelse:
+                            branches.append(cur.orelse)
+                        break
+            elif isinstance(st, ast.Match):
+                branches = [c.body for c in st.cases]
+            if branches:
+                rest = body[:i] + body[i + 1:]
+                return [rest + b for b in branches]
+        return [body]
+
+    nmut = 0
+    for opc, body_ in sorted(((o, b) for o, a in vm.arms.items() for b in units(a.body)), key=lambda x: x[0]):
+        arm = vm.arms[opc]
+        holder = ast.Module(body=body_, type_ignores=[])
+        assigned = {}
+        for n in ast.walk(holder):
+            if isinstance(n, ast.Assign):
+                for t in n.targets:
+                    if isinstance(t, ast.Name):
+                        assigned.setdefault(t.id, []).append(n.value)
+            elif isinstance(n, ast.AnnAssign) and isinstance(n.target, ast.Name) and n.value is not None:
+                assigned.setdefault(n.target.id, []).append(n.value)
+            elif isinstance(n, (ast.For, ast.comprehension)):
+                for x in ast.walk(n.target):
+                    if isinstance(x, ast.Name):
+                        assigned.setdefault(x.id, []).append(None)  # element of something: not fresh
+            elif isinstance(n, ast.withitem) and n.optional_vars is not None:
+                for x in ast.walk(n.optional_vars):
+                    if isinstance(x, ast.Name):
+                        assigned.setdefault(x.id, []).append(None)
+        fresh_names = set()
+        for _ in range(3):
+            for nm, vals in assigned.items():
+                if vals and all(v is not None and fresh_value(v, fresh_names) for v in vals):
+                    fresh_names.add(nm)
+        numeric = {nm for nm, vals in assigned.items() if vals and all(v is not None and numeric_value(v) for v in vals)}
+        muts = []
+        for n in ast.walk(holder):
+            if isinstance(n, ast.Call) and isinstance(n.func, ast.Attribute) and n.func.attr in _LIST_MUTATORS:
+                muts.append((n.func.value, n))
+            elif isinstance(n, (ast.Assign, ast.Delete)):
+                for t in n.targets:
+                    if isinstance(t, ast.Subscript):
+                        muts.append((t.value, n))
+            elif isinstance(n, ast.AugAssign):
+                if isinstance(n.target, ast.Subscript):
+                    muts.append((n.target.value, n))
+                elif isinstance(n.target, ast.Name) and n.target.id not in numeric and isinstance(n.op, (ast.Add, ast.Mult)):
+                    muts.append((n.target, n))
+        for recv, n in muts:
+            nmut += 1
+            txt = unparse(recv)
+            root = recv
+            while isinstance(root, (ast.Subscript, ast.Attribute)):
+                root = root.value
+            rn = root.id if isinstance(root, ast.Name) else None
+            binds_slot = isinstance(recv, ast.Name) and rn in ("localScope", "args") or (isinstance(recv, ast.Attribute) and "lobalScope" in recv.attr)
+            own = isinstance(recv, ast.Name) and rn in fresh_names
+            # x[i][j] = v where x is the arm's own container still writes into an element that may be shared
+            deep_own = not isinstance(recv, ast.Name) and rn in fresh_names and all(v is not None and isinstance(v, (ast.ListComp, ast.List)) or (v is not None and is_copy_expr(v) and "deepcopy" in unparse(v)) for v in assigned.get(rn, []))
+            ok_ = binds_slot or own or deep_own or opc in inplace_ok
+            col.check(ok_, rule, f"{key}::{opc} arm mutates `{txt[:40]}`", "a slot of the value map / globals map is (re)bound, or the arm's own freshly built container is filled",
+                      f"`{unparse(n)[:70]}` changes `{txt}` in place, and `{txt}` is not a container this arm built itself (it can be a value stored in a variable, a global or the caller's "
+                      "argument): every other holder of that value sees the change", VM, n)
+    col.floor(rule, "in-place mutations inside opcode arms", nmut, 20)
+
+
+def run(model, col, tier, share=True):
     vm = VMModel(model)
     ex = vm.execute
     key = f"{VM}::ExecutionContext.__Execute"
@@ -164,6 +272,7 @@ def run(model, col, tier):
                                 continue
                             col.bad("R03.3", f"{key}::{opc} arm in-place write",
                                     f"`{unparse(t)} = ...` mutates a value stored in `{unparse(base)}` in place; copies and the caller's variables alias it", VM, n)
+    check_arm_aliasing(vm, col, "R03.3", inplace_ok)
     for opc in ("VECTOR_SET", "MATRIX_SET"):
         arm = vm.arm(opc)
         writes = []
@@ -323,6 +432,19 @@ def run(model, col, tier):
     # types.Function.Resolve fills __argumentTypes in declaration order
     res = model.cls(TYPES, "Function").own_method("Resolve")
     ordered_enum(res, "self.arguments", f"{TYPES}::Function.Resolve argument types", TYPES)
+    # ... and one entry per declared parameter (named or not): the table is also the positional signature
+    loops_ = [n for n in ast.walk(res) if isinstance(n, ast.For) and "self.arguments" in unparse(n.iter)]
+    per_iter = bool(loops_)
+    for lp in loops_[:1]:
+        for evs_, st_ in paths(lp.body, loop_iters=(1,)):
+            if st_ in ("raise",):
+                continue
+            stores = [e for e in evs_ if e.kind == "stmt" and isinstance(e.node, ast.Assign) and isinstance(e.node.targets[0], ast.Subscript)
+                      and "argumentTypes" in unparse(e.node.targets[0].value)]
+            if len(stores) != 1 or st_ in ("continue", "break") and not stores:
+                per_iter = False
+    col.check(per_iter, "R03.5", f"{TYPES}::Function.Resolve one entry per parameter", "every declared parameter (named or unnamed) adds exactly one entry to the parameter table",
+              "a declared parameter can be skipped when the parameter table is filled: the table is the positional signature, so every later parameter is numbered one too low and reads its neighbour's argument", TYPES, res)
     # ---- R03.6 ---------------------------------------------------------
     ce = model.cls(ASTF, "CallExpression")
     rt = ce.own_method("ResolveType")
@@ -340,3 +462,18 @@ def run(model, col, tier):
         argt = [_rt(a, rt_env) for a in call.args]
         col.check(any("GetType" in a and ("GetArguments" in a or "self.children" in a) for a in argt), "R03.6", f"{ASTF}::CallExpression.ResolveType argument types",
                   "resolution is driven by the types of the call's arguments in order", f"resolution arguments are {argt}", ASTF, rt)
+    # ---- R03.7 ---------------------------------------------------------
+    # the callee that runs is the one selected by the static argument types (= R10.1-R10.4), and a parameter/local never shares
+    # its name with a global (= R12.1; lowering looks names up globals first, so such a parameter would be lowered to global accesses)
+    if share:
+        from ..report import Collector
+        from . import c10, c12
+
+        for mod, pid, rules in ((c10, "C10", ("R10.1", "R10.2", "R10.3", "R10.4")), (c12, "C12", ("R12.1",))):
+            sub = Collector(pid)
+            mod.run(model, sub, "quick")
+            for ob in sub.obligations:
+                if ob.rule in rules:
+                    ob.detail = f"[{ob.rule}] " + (ob.detail or "") if hasattr(ob, "detail") else None
+                    ob.rule = "R03.7"
+                    col.obligations.append(ob)
